@@ -171,6 +171,9 @@ func (p *bndProver) axioms(atoms map[*Term]bool) {
 		case t.K == "LEN":
 			p.sys.addLE(linConst(0), linAtom(t))
 			p.sys.addLE(linAtom(t), linConst(maxLen))
+			if t.A.K == "C" && t.A.Const == nil && strings.HasPrefix(t.A.S, "nil") {
+				p.sys.addEQ(linAtom(t), linConst(0)) // nil slice
+			}
 			// make([]T, n) / slice of a fixed array: the length is known
 			if t.A.K == "V" {
 				switch mv := t.A.V.(type) {
@@ -353,6 +356,33 @@ func (p *bndProver) relateArith(arith []*Term, atoms map[*Term]bool) {
 				p.sys.addEQ(linAtom(w), r)
 				p.ari[w] = true
 				changed = true
+				continue
+			}
+			// x + k (k > 0 constant) wraps only into [MinInt, MinInt+k-1]; x - k only into
+			// [MaxInt-k+1, MaxInt]: a result known to lie outside that range is exact
+			if (w.S == "+" || w.S == "-") && len(b.coef) == 0 && b.k.IsInt() {
+				k := new(big.Rat).Set(b.k)
+				if w.S == "-" {
+					k.Neg(k)
+				}
+				wl := linAtom(w)
+				if k.Sign() > 0 {
+					bound := newLin()
+					bound.k.Add(lo.k, k) // MinInt + k
+					if p.sys.entailsLE(bound, wl) {
+						p.sys.addEQ(wl, r)
+						p.ari[w] = true
+						changed = true
+					}
+				} else if k.Sign() < 0 {
+					bound := newLin()
+					bound.k.Add(hi.k, k) // MaxInt - |k|
+					if p.sys.entailsLE(wl, bound) {
+						p.sys.addEQ(wl, r)
+						p.ari[w] = true
+						changed = true
+					}
+				}
 			}
 		}
 		if !changed {
@@ -575,6 +605,11 @@ func (na *nilAnalysis) collectBndSites(fn *ssa.Function) []nilSite {
 				if c.p.isNamed(derefType(x.X.Type()), "stack") && c.isWrittenOrUserRead(x) {
 					lower = one
 					what = "element access on stack (slot >= 1)"
+					for _, r := range *x.Referrers() {
+						if st, ok := r.(*ssa.Store); ok && st.Addr == ssa.Value(x) {
+							what = "element store on stack (slot >= 1)"
+						}
+					}
 				}
 				out = append(out, nilSite{rule: "R-BND", instr: in, what: what, need: mkNeed(x.X, x.Index, lower, true, what)})
 			case *ssa.Index:
